@@ -19,8 +19,7 @@ _compose_part("C07", "C07compose",
      "A panic inside GetMove (thinker goroutine: the real process would die) is `tpanic`; the harness prefixes the status with `stale-` once a GetMove call whose context was already cancelled on entry had any effect (fixes/C07-stale-thinker.diff makes such calls return at once)",
      ["composed: the searching player is a stub (its answer is an input of the schedule); Friendly's check-engine verdicts are inputs; clocks through the seams of harness/rewrite/playtak_friendly.json, playtak_taktician.json, playtak_bot.json",
       "composed: thinkers take moveLock in the order they were started (they are parked on the mutex one event apart) and everything in GetMove that does not wait happens at once (Tak.Compose.settle); other lock orders are covered by the theorems only",
-      "composed: chat commands that arrive as Shout lines (HandleChat), the opening-book wrapper and Friendly.GameOver's survey Tell are outside the composed model",
-      "composed: the scheduler never lets a call see a check-engine verdict claiming a win in one on the start position (Tak.Compose.saneChk; no real check engine does, and waitUndo would index Positions[len-2] of a one-position record: C07.ChkOK)"])
+      "composed: chat commands that arrive as Shout lines (HandleChat), the opening-book wrapper and Friendly.GameOver's survey Tell are outside the composed model"])
 
 # Work package "botcompose2": Friendly's check engine threaded (Impl/BotCheck.lean); generator C07check runs the real waitUndo with the REAL f.check.
 _compose_part("C07", "C07check",
